@@ -150,3 +150,95 @@ def gen_prefix_overlap(rng, actions=True):
     g.mode = mode
     g.finite = True
     return g
+
+
+def gen_prefix_overlap_loc(rng):
+    """prefix-overlap grammar + nullable tails + @L/@R everywhere: empty reductions at end of
+    input in recursive-ascent states whose stack slots are optional"""
+    g = gen_prefix_overlap(rng, actions=True)
+    for nt in g.nts:
+        if nt.ty != "V":
+            # make every nonterminal observable
+            nt.ty = "V"
+            nt.unit = False
+            for alt in nt.alts:
+                for it in alt.items:
+                    it.bind = None
+                alt.action = "none_sel"
+    opt_name = "Opt"
+    t = rng.choice(g.terms)
+    extra = "z"
+    if extra not in g.terms:
+        g.terms.append(extra)
+    oalts = [Alt([], action="none_sel"), Alt([Item(T(extra), ("name", "x", False))], action="named")]
+    if rng.random() < 0.8:
+        oalts[0] = Alt([Item(gen.Sym("L"), ("name", "l", False)), Item(gen.Sym("R"), ("name", "r", False))], action="named")
+    g.nts.append(NT(opt_name, oalts, ty="V"))
+    for nt in g.nts[:-1]:
+        for alt in nt.alts:
+            if rng.random() < 0.5 and alt.action in ("named", "none_sel", "angle"):
+                used = {x.bind[1] for x in alt.items if x.bind and x.bind[0] == "name"}
+                b = None
+                if alt.action == "named":
+                    fresh = [n for n in ["o1", "o2"] if n not in used]
+                    b = ("name", fresh[0], False)
+                elif alt.action == "angle" and any(x.bind and x.bind[0] == "sel" for x in alt.items):
+                    b = ("sel",)
+                elif alt.action == "angle" and any(x.bind and x.bind[0] == "name" for x in alt.items):
+                    b = ("name", "o1", False)
+                alt.items.append(Item(N(opt_name), b))
+    # a branch that stops early: shared prefix, then the nullable tail (empty reduction in a
+    # state that also holds longer items)
+    s_nt = g.nts[0]
+    for _ in range(rng.choice([1, 1, 2])):
+        base = rng.choice(s_nt.alts)
+        pre = []
+        for it in base.items:
+            if it.sym.k != "t":
+                break
+            pre.append(it.sym)
+        if not pre:
+            continue
+        # usually stop exactly where a nested nonterminal begins in the base alternative
+        d = len(pre) if (len(pre) < len(base.items) and rng.random() < 0.75) else rng.randint(1, len(pre))
+        items = [Item(x, None) for x in pre[:d]] + [Item(N(opt_name), ("name", "o1", False)), Item(gen.Sym("R"), ("name", "re", False))]
+        if rng.random() < 0.5:
+            items.insert(0, Item(gen.Sym("L"), ("name", "ls", False)))
+        s_nt.alts.append(Alt(items, action="named"))
+    gen.add_locations(rng, g, p=0.8)
+    gen._assign_pids(g)
+    return g
+
+
+def add_inline_pair(rng, g):
+    """a nonterminal with one fallible and one infallible alternative, used twice in one
+    alternative (C14: order of inlined actions of the SAME nonterminal, mixed fallibility)"""
+    p, q = "p", "q"
+    for t in (p, q):
+        if t not in g.terms:
+            g.terms.append(t)
+    a1 = Alt([Item(T(p), ("name", "x", False))], action="named", fallible=True)
+    a2 = Alt([Item(T(q), ("name", "x", False))], action="named", fallible=False)
+    alts = [a1, a2]
+    rng.shuffle(alts)
+    if rng.random() < 0.3:
+        alts.append(Alt([Item(T(p), ("name", "x", False)), Item(T(q), ("name", "y", False))], action="named", fallible=rng.random() < 0.5))
+    name = "I"
+    g.nts.append(NT(name, alts, ty="V"))
+    hosts = [nt for nt in g.nts if nt.ty == "V" and nt.name != name]
+    if not hosts:
+        gen._assign_pids(g)
+        return g
+    host = rng.choice(hosts)
+    items = [Item(N(name), ("name", "i1", False))]
+    if rng.random() < 0.4:
+        items.append(Item(T(rng.choice(g.terms[:-2] or g.terms)), None))
+    items.append(Item(N(name), ("name", "i2", False)))
+    if rng.random() < 0.4:
+        items.append(Item(N(name), ("name", "i3", False)))
+    lead = T(rng.choice(g.terms))
+    if rng.random() < 0.7:
+        items.insert(0, Item(lead, None))
+    host.alts.append(Alt(items, action="named", fallible=rng.random() < 0.3))
+    gen._assign_pids(g)
+    return g
